@@ -234,13 +234,6 @@ Proof.
   repeat split; try assumption; reflexivity.
 Qed.
 
-(* ---- frames whose headers carry the writer's own codes ---- *)
-Definition frame_canon (channels bps : N) (f : frame) : Prop :=
-  f_precomputed f = None /\ header_canon (f_header f) bps /\
-  chassign_channels (h_ch (f_header f)) = channels /\ N.of_nat (length (f_subframes f)) = channels /\
-  (forall i s, nth_error (f_subframes f) i = Some s ->
-     psub_ready (h_block (f_header f)) s (bps + bps_offset (h_ch (f_header f)) (N.of_nat i))).
-
 Theorem stream_parses_back s bytes :
   info_canon (s_info s) -> Forall meta_ok (s_meta s) -> si_bps (s_info s) <= c_MAX_BITS_PER_SAMPLE ->
   Forall (frame_canon (si_channels (s_info s)) (si_bps (s_info s))) (s_frames s) ->
